@@ -64,6 +64,8 @@ func gen(family string, seed uint64, n, max int, opt string, emit func(interface
 		genMux(seed, n, max, opt == "demux", emit)
 	case "muxfault":
 		genMuxFault(seed, n, max, emit)
+	case "demux":
+		genStreams(seed, n, max, emit)
 	default:
 		fatal("gen: unknown family %q", family)
 	}
@@ -80,7 +82,20 @@ func run(family string, line []byte, rec *recorder, opt string) {
 			sc.Demux = true
 		}
 		runMux(&sc, rec)
+	case "demux":
+		var sc streamScenario
+		if err := json.Unmarshal(line, &sc); err != nil {
+			fatal("bad stream scenario: %v: %s", err, line)
+		}
+		runStreamFamily(family, &sc, rec, opt)
 	default:
 		fatal("run: unknown family %q", family)
+	}
+}
+
+func runStreamFamily(family string, sc *streamScenario, rec *recorder, opt string) {
+	switch family {
+	case "demux":
+		runDemux(sc, rec)
 	}
 }
